@@ -169,16 +169,28 @@ func c14(r *Run) {
 				if !isPhi {
 					continue
 				}
-				// a loop counter: compared with a small constant bound in the header
+				// a loop counter: an integer phi compared with a constant
 				isCounter := false
 				for _, ref := range *phi.Referrers() {
-					if bo, isB := ref.(*ssa.BinOp); isB && bo.Op == token.LSS && bo.X == ssa.Value(phi) {
-						if k, okc := constInt(bo.Y); okc && k <= 8 {
-							isCounter = true
+					if bo, isB := ref.(*ssa.BinOp); isB {
+						switch bo.Op {
+						case token.LSS, token.LEQ, token.GTR, token.GEQ, token.NEQ:
+							if _, okc := constInt(bo.Y); okc && bo.X == ssa.Value(phi) {
+								isCounter = true
+							}
 						}
 					}
 				}
 				if !isCounter {
+					continue
+				}
+				hasBack := false
+				for pi := range phi.Edges {
+					if b.Dominates(b.Preds[pi]) {
+						hasBack = true
+					}
+				}
+				if !hasBack {
 					continue
 				}
 				found = true
@@ -186,18 +198,22 @@ func c14(r *Run) {
 					if !b.Dominates(b.Preds[pi]) {
 						continue // entry edge
 					}
-					inc, isB := e.(*ssa.BinOp)
-					if !isB || inc.Op != token.ADD || inc.X != ssa.Value(phi) {
+					step, isB := e.(*ssa.BinOp)
+					if !isB || (step.Op != token.ADD && step.Op != token.SUB) || step.X != ssa.Value(phi) {
 						ok = false
 						continue
 					}
-					if k, okc := constInt(inc.Y); !okc || k <= 0 {
+					if k, okc := constInt(step.Y); !okc || k == 0 {
 						ok = false
 					}
 				}
 			}
 		}
-		r.ob("C14.R1:retry-bounded", "the self-connect / EADDRNOTAVAIL retry loop advances its counter on every iteration (a persistent EADDRNOTAVAIL cannot make the dial spin past its timeout)", fn, nil, found && ok, fmt.Sprintf("bounded counter found=%v, incremented on every back edge=%v", found, ok), true)
+		detail := "no counted loop in dialTCP (nothing to check)"
+		if found {
+			detail = fmt.Sprintf("counted retry loop, counter advanced on every back edge=%v", ok)
+		}
+		r.ob("C14.R1:retry-bounded", "where the self-connect / EADDRNOTAVAIL retry is a counted loop, its counter advances on every iteration (a persistent EADDRNOTAVAIL cannot make the dial spin past its timeout)", fn, nil, !found || ok, detail, true)
 	}
 	// a connection that was established is handed to the caller or closed - never dropped
 	for _, c := range []struct{ fn, callee string }{
